@@ -113,8 +113,30 @@ impl Future for StatusFuture {
     if self.0.is_closed() {
       Poll::Ready(NormalReturn::new(()))
     } else {
+      #[cfg(feature = "verif_hooks")]
+      verif::after_check();
       self.0.waker.register(cx.waker());
       Poll::Pending
+    }
+  }
+}
+
+/// Verification hook (cargo feature `verif_hooks`, off by default): a yield
+/// point between the flag check and the waker registration of
+/// `StatusFuture::poll`, so that a harness can replay the interleaving in
+/// which the producer terminates exactly there.
+#[cfg(feature = "verif_hooks")]
+pub mod verif {
+  use std::cell::RefCell;
+
+  thread_local! {
+    pub static AFTER_CHECK: RefCell<Option<Box<dyn FnOnce()>>> = RefCell::new(None);
+  }
+
+  pub fn after_check() {
+    let f = AFTER_CHECK.with(|c| c.borrow_mut().take());
+    if let Some(f) = f {
+      f()
     }
   }
 }
